@@ -76,6 +76,10 @@ fn run_child(ops: &[String]) {
     let mut id: Option<signal_hook::SigId> = None;
     let (mut rfd, mut wfd) = (-1, -1);
     let mut sig = libc::SIGUSR1;
+    // a second registration, for another signal, on a dup of the same write end (the documented way to
+    // wake one pipe from several signals): both share one open file description
+    let mut sig2 = libc::SIGUSR2;
+    let mut id2: Option<signal_hook::SigId> = None;
     for op in ops {
         let w: Vec<&str> = op.split_whitespace().collect();
         match w.as_slice() {
@@ -124,8 +128,26 @@ fn run_child(ops: &[String]) {
                 println!("{}", match r { Ok(Ok(i)) => { id = Some(i); "ok" } Ok(Err(_)) => "err", Err(_) => "panic" });
                 flush_log();
             }
-            ["raise", n] => {
+            ["reg2", how, s] => {
+                sig2 = s.parse().unwrap();
+                let dupfd = unsafe { libc::dup(wfd) };
+                let r = std::panic::catch_unwind(std::panic::AssertUnwindSafe(|| {
+                    if *how == "raw" {
+                        signal_hook::low_level::pipe::register_raw(sig2, dupfd)
+                    } else {
+                        match kind.as_str() {
+                            "stream" => signal_hook::low_level::pipe::register(sig2, unsafe { std::os::unix::net::UnixStream::from_raw_fd(dupfd) }),
+                            "dgram" => signal_hook::low_level::pipe::register(sig2, unsafe { std::os::unix::net::UnixDatagram::from_raw_fd(dupfd) }),
+                            _ => signal_hook::low_level::pipe::register(sig2, unsafe { std::fs::File::from_raw_fd(dupfd) }),
+                        }
+                    }
+                }));
+                println!("{}", match r { Ok(Ok(i)) => { id2 = Some(i); "ok" } Ok(Err(_)) => "err", Err(_) => "panic" });
+                flush_log();
+            }
+            ["raise", n] | ["raise2", n] => {
                 let n: usize = n.parse().unwrap();
+                let sig = if w[0] == "raise2" { sig2 } else { sig };
                 let d = disposition(sig, None);
                 if d == "dfl" { println!("raised 0"); continue; }
                 let t0 = std::time::Instant::now();
@@ -152,6 +174,11 @@ fn run_child(ops: &[String]) {
                 let b = id.map(signal_hook::low_level::unregister).unwrap_or(false);
                 let open = unsafe { libc::fcntl(wfd, libc::F_GETFD) >= 0 };
                 println!("unregistered={} fd={}", b, if open { "open" } else { "closed" });
+                flush_log();
+            }
+            ["unreg2"] => {
+                let b = id2.map(signal_hook::low_level::unregister).unwrap_or(false);
+                println!("unregistered2={}", b);
                 flush_log();
             }
             ["final"] => {
